@@ -16,7 +16,7 @@ ID = 'C07'
 LEVEL = 'exploration'
 TECHNIQUE = 'bounded-exhaustive words + exhaustive sweep of every known macro/environment name in every argument frame x all option combinations'
 
-SPECS = {'quick': dict(R=4, L=3, A=None), 'thorough': dict(R=5, L=4, A=None)}
+SPECS = {'quick': dict(R=4, L=3, A=None, E=3), 'thorough': dict(R=5, L=4, A=None, E=4)}
 
 MACRO_FRAMES = ['\\M', '\\M{}', '\\M{a}', '\\M[a]{b}', '\\M*', '\\M{a}{b}', '\\M a', '\\M}', '\\textbf\\M',
                 '\\frac\\M\\M', '\\hat\\M', '\\sqrt[\\M]{\\M}', '$\\M$', '{\\M', '\\M{a}{b}{c}{d}', '\\M[', '\\M{',
